@@ -3,9 +3,9 @@ package main
 import (
 	"bytes"
 	"fmt"
-	"unsafe"
 	"strconv"
 	"strings"
+	"unsafe"
 
 	"github.com/gobwas/ws"
 	"github.com/gobwas/ws/wsutil"
@@ -326,6 +326,12 @@ func runC02(c *ctx) {
 				h.Mask = key
 			}
 			c02F(c, name, h, p, key)
+			if !strings.HasPrefix(name, "Unmask") {
+				// a frame whose header already says masked (stale key): the helper applies the new key only
+				h.Masked = true
+				c.rng.Read(h.Mask[:])
+				c02F(c, name, h, p, key)
+			}
 		}
 	}
 }
